@@ -47,7 +47,7 @@ def mkCfg (mask : Nat) (types : List (List Ch)) : Cfg :=
   { rules := Gen.rules, kws := Gen.keywordTable, maxLen := Gen.maxLen, mask := mask,
     bitOld := Gen.bitOLD, bitProperty := Gen.bitPROPERTY, bitProb := Gen.bitPROB,
     tConst := Gen.T_CONST, tOldConst := Gen.T_OLDCONST,
-    isType := fun _ w => types.contains w, expectStops := Gen.expectStopsBeforeClose }
+    isType := fun _ w => types.contains w, softLits := Gen.softLits, expectStops := Gen.expectStopsBeforeClose }
 
 def parseTypes (s : String) : List (List Ch) :=
   if s == "-" then [] else (s.splitOn ",").map (fun x => x.toList.map Char.toNat)
